@@ -83,7 +83,7 @@ def scenario(rng, n_sleepers, horizon):
                     # whatever the settings held before (an application that tuned one of them, another component):
                     # a switch installs the COMPLETE table
                     for m_ in rng.sample(members, rng.randrange(1, len(members) + 1)):
-                        setattr(cfg.GeckoConfig, m_, -7)
+                        setattr(cfg.GeckoConfig, m_, 12345)      # (not a value that makes a loop spin)
                 cfg.set_config_mode(mode == "active")
                 ev.append({"k": "switch", "mode": mode, "t": _ms(loop.time()),
                            "table": {m: getattr(cfg.GeckoConfig, m) for m in members},
